@@ -148,10 +148,11 @@ Proof. repeat split; intros j H; (destruct j as [|[|[|j]]]; [simpl; tauto|simpl;
 
 (* a concrete run: three sources, the middle one fails, completion order 2,0,1 *)
 Definition ex_src (a : string) (ok : bool) (k : string) (v : Z) : source tprof :=
-  {| s_addr := a; s_res := if ok then GOk {| tp_type := "samples"; tp_samples := [(k, v); ("shared", v)] |} false else GErr "boom" |}.
+  {| s_addr := a; s_res := if ok then GOk {| tp_type := "samples"; tp_comments := [a]; tp_samples := [(k, v); ("shared", v)] |} false else GErr "boom" |}.
 Example run_example :
   let o := grab_sources_and_bases tprof toy_combine chunk_size
              [ex_src "a" true "fa" 1; ex_src "b" false "fb" 2; ex_src "c" true "fc" 4] [] [2; 0; 1] [] in
   g_status o = StOk /\ g_err_src o = ["b: boom"%string] /\ g_tail o = ["Fetched 2 source profiles out of 3"%string]
-  /\ g_src o = Some {| tp_type := "samples"; tp_samples := [("fa", 1); ("shared", 5); ("fc", 4)]%Z |}.
+  /\ g_src o = Some {| tp_type := "samples"; tp_comments := ["a"; "c"]%string;
+                       tp_samples := [("fa", 1); ("shared", 5); ("fc", 4)]%Z |}.
 Proof. vm_compute. repeat split. Qed.
